@@ -619,6 +619,60 @@ func genC07(r *Rng, e *Emitter, n int) {
 	for _, c := range corpus {
 		emitC07Dec(e, c.kind, "corpus", []byte(c.doc))
 	}
+	// boundary sizes: collections of many features and long coordinate arrays
+	fcSizes := []int{255, 256, 257, 1024, 1280}
+	if n >= 50000 {
+		fcSizes = append(fcSizes, 511, 512, 513, 1023, 1025, 2048, 4096)
+	}
+	for _, k := range fcSizes {
+		fc := &geojson.FeatureCollection{}
+		var parts []string
+		for j := 0; j < k; j++ {
+			f := &geojson.Feature{ID: fmt.Sprint(j), Geometry: geom.NewPointFlat(geom.XY, []float64{float64(j), 0.5})}
+			fc.Features = append(fc.Features, f)
+			parts = append(parts, fmt.Sprintf("(%s %s %s %s)", hexStr(f.ID), sxGjBounds(nil), (&gtree{kind: "pt", layout: geom.XY, pt: geom.Coord{float64(j), 0.5}}).sx(), sxProps(nil)))
+		}
+		in := fmt.Sprintf("(%s (%s))", sxGjBounds(fc.BBox), strings.Join(parts, " "))
+		var text []byte
+		out := guard(func() string {
+			b, err := json.Marshal(fc)
+			if err != nil {
+				return sxGeoErr(err)
+			}
+			text = b
+			var fc2 geojson.FeatureCollection
+			if err := json.Unmarshal(b, &fc2); err != nil {
+				return sxGeoErr(err)
+			}
+			return "(ok " + sxFC(&fc2) + ")"
+		})
+		e.tally("fc-big")
+		e.emit("C07.fc", in, "(m ((text "+hexStr(string(text))+")) "+out+")")
+	}
+	for _, bc := range bigCases(n >= 50000) {
+		stride, pts := bc[0], bc[1]
+		if stride == 3 || stride > 4 || pts > 4096 {
+			continue
+		}
+		l := layoutForStride(stride)
+		t := &gtree{kind: "ls", layout: l, c1: coordsOfFlat(stride, bigFlat(stride, pts))}
+		in := t.sx()
+		var text []byte
+		out := guard(func() string {
+			b, err := geojson.Marshal(t.build())
+			if err != nil {
+				return sxGeoErr(err)
+			}
+			text = b
+			var g2 geom.T
+			if err := geojson.Unmarshal(b, &g2); err != nil {
+				return sxGeoErr(err)
+			}
+			return "(ok " + sxRaw(g2) + ")"
+		})
+		e.tally("geom-big")
+		e.emit("C07.geom", in, "(m ((text "+hexStr(string(text))+")) "+out+")")
+	}
 	for i := 0; i < n; i++ {
 		switch r.Intn(10) {
 		case 0, 1, 2:
